@@ -21,6 +21,7 @@ META = {
         "containment-minimal elements (reference mesh-in-mesh containment) and brute-force class equality. "
         "Non-trivial: some input element contains another (pruning must happen) or >= 2 different pattern "
         "classes are mixed. Distinct = multiset content."
+        " Near-contained mesh pairs (the longer pattern's shading is the union of the regions of the shorter one's cells with cells taken out) and independent classical pairs (5-7, 8-12) through the pair check."
     ),
     "assumptions": [
         "a classical pattern is identified with the unshaded mesh pattern when it enters a MeshBasis",
